@@ -318,6 +318,30 @@ fn check_point(cx: &mut Ctx, s: &dyn DynSampler, cached_spec: Option<f64>, ri: u
         let nan = o.u.is_nan() || meta.det.is_nan() || meta.inverse.iter().chain(meta.q_t.iter()).chain(meta.q_t_inv.iter()).flatten().any(|v| v.is_nan());
         if nan { cx.viol("C16", "a sample returned Ok with NaN in its decomposition although matrix_stability_test is Some(tol)".into(), ri, x, json!({"u": o.u})); }
         if o.u == 0.0 { cx.viol("C16", "a sample returned Ok with a zero determinant".into(), ri, x, json!({})); }
+        // Ok only if the L_{2,1} distance between inverse x matrix and the identity is at most tol: recomputed from the
+        // returned inverse and the returned L (same formula, f64; slack of a few roundings of the n^3 products)
+        if let Some(tol) = stab {
+            let (lmx, inv) = (&meta.l_matrix, &meta.inverse);
+            let n = lmx.len();
+            if !nan && inv.len() == n && n > 0 {
+                let mut dist = 0.0;
+                for j in 0..n {
+                    let mut col = 0.0;
+                    for i in 0..n {
+                        let mut sacc = 0.0;
+                        for k in 0..n { sacc += inv[i][k] * lmx[k][j]; }
+                        if i == j { sacc -= 1.0; }
+                        col += sacc * sacc;
+                    }
+                    dist += col.sqrt();
+                }
+                let absprod: f64 = (0..n).map(|i| (0..n).map(|j| (0..n).map(|k| (inv[i][k] * lmx[k][j]).abs()).sum::<f64>()).fold(0.0, f64::max)).fold(0.0, f64::max);
+                cx.sm.count("stability_distance_recomputed");
+                if dist.is_finite() && dist > tol + 8.0 * (n * n) as f64 * f64::EPSILON * absprod.max(1.0) {
+                    cx.viol("C16", format!("a sample returned Ok with matrix_stability_test = Some({:e}) although |inverse L - 1|_(2,1) = {:e} for the returned inverse and L", tol, dist), ri, x, json!({"tol": tol, "dist": dist}));
+                }
+            }
+        }
     }
     let (xun, xres, utr, vtr) = match (getlog(&out.log, "momtrop_feynman_parameter_no_rescaling"), getlog(&out.log, "momtrop_feynman_parameter"),
                                        getlog(&out.log, "momtrop_u_trop_no_rescaling"), getlog(&out.log, "momtrop_v_trop_no_rescaling")) {
@@ -741,7 +765,7 @@ pub fn run(lines: &[Value], opts: &SampleOpts) -> Summary {
         let mut ti = 0;
         for (k, p) in pts.iter().enumerate() { pts_all.push(p); if k % 5 == 0 && p.x.len() >= base_bm + 2 { pts_all.push(&twins[ti]); ti += 1; } }
         for pt in pts_all {
-            let stab = if opts.stab_all { Some([1e-3, 1e-9, 1e-16, 1.0][rng.gen_range(0..4)]) } else if rng.gen_bool(0.2) { Some(1e-3) } else { None };
+            let stab = if opts.stab_all { Some([1e-3, 1e-9, 1e-16, 1.0][rng.gen_range(0..4)]) } else if rng.gen_bool(0.3) { Some([1e-3, 1e-3, 1e-11, 1e-14, 1e-15, 0.0][rng.gen_range(0..6)]) } else { None };
             let mut res = vec![];
             for (ri, s) in samplers.iter().enumerate() {
                 if let Some(r) = check_point(&mut cx, s.as_ref(), cached_spec, ri, pt, stab) { res.push((ri, r)); }
